@@ -709,7 +709,7 @@ class Exec:
         outs = self.expr_outs(e, st)
         vals = [o for o in outs if o.kind == "value"]
         if len(vals) != 1 or len(outs) != 1:
-            raise Unsupported(f"expression with several outcomes used in a pure position (line {getattr(e, 'lineno', '?')})")
+            raise Unsupported(f"expression with several outcomes used in a pure position (statement #{getattr(e, 'lineno', '?')})")
         st.env, st.heap, st.pc = vals[0].st.env, vals[0].st.heap, vals[0].st.pc
         return vals[0].value
 
@@ -819,7 +819,7 @@ class Exec:
                 return StrSet(c) if isinstance(c, list) else c
             if e.id in ("nx", "cg", "re", "circuitgraph"):
                 return ModuleV(e.id)
-            raise Unsupported(f"unknown name {e.id} (line {e.lineno})")
+            raise Unsupported(f"unknown name {e.id} (statement #{e.lineno})")
         if isinstance(e, ast.List) or isinstance(e, ast.Tuple):
             items = [self.ev(x, st) for x in e.elts]
             if not items and isinstance(e, ast.List):
@@ -884,7 +884,7 @@ class Exec:
             ks = [self.name_term(self.ev(k, st)) for k in e.keys]
             vs = [self.ev(v, st) for v in e.values]
             return DictV(lambda x, ks=ks: z3.Or([x == k for k in ks]), None, items=list(zip(ks, vs)))
-        raise Unsupported(f"expression {type(e).__name__} (line {getattr(e, 'lineno', '?')})")
+        raise Unsupported(f"expression {type(e).__name__} (statement #{getattr(e, 'lineno', '?')})")
 
     def _looks_like_types(self, items):
         return all(x.s in self.ctx.tval for x in items)
@@ -1233,7 +1233,7 @@ class Exec:
                 try:
                     t = self.truthy(self.ev(c, gst))
                 except _Split as sp:
-                    raise Unsupported(f"comprehension filter may raise {sp.exc} (line {e.lineno})")
+                    raise Unsupported(f"comprehension filter may raise {sp.exc} (statement #{e.lineno})")
                 guards.append(t)
                 gst = gst.fork(t)
             try:
@@ -1345,7 +1345,7 @@ class Exec:
                 return self.call_local(st.env[nm], e, st)
             if nm in self.summaries:
                 return self.invoke(self.summaries[nm], None, e, st)
-            raise Unsupported(f"call of {nm} (line {e.lineno})")
+            raise Unsupported(f"call of {nm} (statement #{e.lineno})")
         if isinstance(f, ast.Attribute):
             base = self.ev(f.value, st)
             return self.method(base, f.attr, e, st)
